@@ -118,7 +118,7 @@ func runC08(e *Engine, tier Tier) *PropRun {
 	}
 	// 2./3. assign-before-read and restoration on every path: the contracts of the parser entry points and the
 	// default contract of every (*Parser) method (depth restored, configuration and inputs untouched)
-	opts := &VCOpts{InlineDepth: 2}
+	opts := &VCOpts{InlineDepth: 2, NoContents: true}
 	fns := e.sourceFns(func(fn *ssa.Function, file string) bool {
 		if fn.Parent() != nil || !strings.HasPrefix(file, "pkg/sql/parser/") {
 			return false
